@@ -484,6 +484,7 @@ pub fn run(ctx: &Ctx) -> i32 {
         let n = if ctx.quick() { 8 } else { 12 };
         explore(ctx, &format!("COMBO: complete 12-step buildings, {n} subsystems absent/present"), Layered { slots: alpha::combo_slots(n), bases: alpha::bases(false) }, FULL, shared.clone());
     }
+    explore(ctx, "VOCAB: every (service, carrier) pair / cogeneration fuel / production source added to a small building", Wide { alphabet: alpha::vocab_letters(), bases: alpha::vocab_base(), max_add: if ctx.quick() { 1 } else { 2 }, repeat: false }, FULL, shared.clone());
     explore(ctx, "TEXT bases as other processes (CLI x 10 runs): AUX/ENV systems depth<=2", Wide { alphabet: aux_env_letters(), bases: alpha::bases(false), max_add: if ctx.quick() { 1 } else { 2 }, repeat: false }, FULL_CLI, shared.clone());
     explore(ctx, "TEXT bases: shipped files + <=1 line", Wide { alphabet: alpha::seeded_letters(), bases: alpha::shipped_bases(), max_add: if ctx.quick() { 0 } else { 1 }, repeat: false }, FULL_CLI, shared.clone());
     let (sch, seen, closed, big) = (SCHEDULES.load(Ordering::Relaxed), SITES_SEEN.load(Ordering::Relaxed), SITES_CLOSED.load(Ordering::Relaxed), SITES_BIG.load(Ordering::Relaxed));
